@@ -180,7 +180,7 @@ func (p *g5Peer) send(rawId uint16, payload []byte) error {
 		binary.BigEndian.PutUint16(seg[4:6], rawId)
 		binary.BigEndian.PutUint16(seg[6:8], uint16(n))
 		copy(seg[8:], payload[:n])
-		_ = p.conn.SetWriteDeadline(time.Now().Add(5 * time.Second))
+		_ = p.conn.SetWriteDeadline(time.Now().Add(90 * time.Second))
 		if _, err := p.conn.Write(seg); err != nil {
 			return err
 		}
@@ -193,7 +193,7 @@ func (p *g5Peer) send(rawId uint16, payload []byte) error {
 func (p *g5Peer) sendRaw(b []byte) error {
 	p.wmu.Lock()
 	defer p.wmu.Unlock()
-	_ = p.conn.SetWriteDeadline(time.Now().Add(5 * time.Second))
+	_ = p.conn.SetWriteDeadline(time.Now().Add(90 * time.Second))
 	_, err := p.conn.Write(b)
 	return err
 }
